@@ -368,6 +368,15 @@ def eq(a, b):
         return TRUE
     if is_const(a) and is_const(b):
         return FALSE
+    # comparison of a truth value with a literal: `b == true` is b, `b == false` is !b (e.g. `match (p, q)` arms)
+    if b is TRUE:
+        return a
+    if b is FALSE:
+        return not_(a)
+    if a is TRUE:
+        return b
+    if a is FALSE:
+        return not_(b)
     # comparison with a fieldless enum constant is a variant test
     if b.op == "adt" and len(b.a) == 2 and a.op != "adt":
         return isvar(a, b.a[0], b.a[1])
